@@ -817,6 +817,8 @@ def giant_shard(args):
             base = rng.choice([2 ** 25, 2 ** 26, 2 ** 25, 3 * 2 ** 24])
             N = base + rng.randint(-40, 40)
             kind = rng.choice(["blanks", "blanks", "block_comment", "newlines"])
+            if kind == "block_comment" and text[gpos - 1:gpos] in (b"/", b"|"):
+                kind = "blanks"       # '/' + '/*...' would read as a line comment: not the same program
             if kind == "block_comment":
                 filler_small, parts_mid = b" ", [b"/*", (N - 4, b"c"), b"*/"]
             elif kind == "newlines":
